@@ -1,7 +1,10 @@
 """C12 - fraction approximation never misstates a value.
 Theorems in coq/Properties/C12.v (over coq/Gen/FracConsts.v, regenerated from the source on every run),
-L-frac correspondence (extracted Model/Fraction.v vs Number::new_approx / value / Display), monitor on
-the implementation's answers (harness/src/bin/frac.rs)."""
+L-frac correspondence (extracted Model/Fraction.v vs Number::new_approx / try_approx / value / Display,
+ScaledQuantity::try_fraction / fit), monitor on the implementation's answers (harness/src/bin/frac.rs).
+Besides single approximations the cases contain SEQUENCES: the same number is approximated again and
+again (same and different limits; also a number that starts as a stored fraction with an error), through
+Number::try_approx, ScaledQuantity::try_fraction (number and range) and ScaledQuantity::fit."""
 import math
 import os
 import random
@@ -184,6 +187,274 @@ def gen_cases(c, tier, rng):
 
 
 # --------------------------------------------------------------------------
+# sequences: ("S", mode, start, ((acchex, max_den, max_whole), ...))
+
+SEQ_WITNESSES = [0.26, 2.08]          # 1/4 + 0.01 and "2" + 0.08 at 5 %: the recorded error must survive
+Q_ACCS = ACCS + [2.0, -1.0]           # a units file may say anything: `define` clamps
+Q_DENS = [0, 1, 2, 3, 4, 8, 10, 15, 16, 17, 64, 200]
+
+
+def is_seq(case):
+    return case[0] == "S"
+
+
+def seq_start_value(tok):
+    """float value of a start token as Number::value computes it (aims tolerances, never judges)."""
+    if tok[0] == "b":
+        return hex64_to_float(tok[1:])
+    w, n, d, e = tok[1:].split(",")
+    d = int(d)
+    if d == 0:
+        return math.nan
+    return int(w) + hex64_to_float(e) + int(n) / d
+
+
+def gen_seq_cases(c, tier, rng):
+    quick = tier == "quick"
+    table = py_table(c)
+    denoms = c["denoms"]
+    out = []
+
+    def triple(mode):
+        if mode == "n":
+            acc = rng.choice(ACCS) if rng.random() < 0.8 else f32round(rng.random())
+            return (f32hex(acc), rng.randint(1, 64) if rng.random() < 0.7 else rng.choice(den_classes(c)),
+                    rng.choice(WHOLES) if rng.random() < 0.9 else rng.randint(0, U32MAX))
+        # unit configurations come from a bounded pool (one converter is built per distinct triple)
+        return (f32hex(rng.choice(ACCS if rng.random() < 0.9 else Q_ACCS)),
+                rng.choice(Q_DENS) if rng.random() < 0.5 else rng.choice([d for d in den_classes(c) if d <= 16]),
+                rng.choice(WHOLES))
+
+    def plan(mode):
+        """2..4 calls: the same limits again, other limits, or a mixture."""
+        n = rng.choice([2, 2, 3, 3, 4])
+        first = triple(mode)
+        r = rng.random()
+        if r < 0.3:
+            return (first,) * n
+        if r < 0.6:
+            return tuple([first] + [triple(mode) for _ in range(n - 1)])
+        ts = [first, triple(mode)]
+        return tuple(rng.choice(ts) for _ in range(n))
+
+    def value():
+        r = rng.random()
+        if r < 0.35:      # near a table fraction, so that a first approximation leaves an error
+            _, n, d = rng.choice(table)
+            w = rng.choice([0, 0, 1, 2, 4, 5, 100])
+            t = w + n / d
+            return t * (1 + rng.choice([-1, 1]) * rng.choice([0.0, 1e-12, 1e-6, 0.0009, 0.004, 0.009, 0.03, 0.049, 0.08, 0.3]) * rng.random())
+        if r < 0.5:       # near an integer (the "w" + err answers)
+            w = rng.choice([1, 2, 3, 4, 5, 6, 100, 101, 1000, U32MAX - 1])
+            return w * (1 + rng.choice([-1, 1]) * rng.choice([1e-13, 1e-11, 1e-9, 0.001, 0.01, 0.04, 0.09]) * rng.random())
+        if r < 0.8:
+            return rng.uniform(0, 10)
+        if r < 0.95:
+            return 10.0 ** rng.uniform(-6, 7)
+        return rng.choice([0.0, -0.5, -2.25, 1e-11, 0.5, 1.0, 3.0, float(U32MAX), U32MAX + 0.5, 2.0 ** 33 + 0.5, 1e19])
+
+    def start():
+        r = rng.random()
+        if r < 0.7:
+            return "b" + f64hex(value())
+        # a stored fraction: parsed (err = 0), left by an earlier approximation, or anything at all
+        d = rng.choice(denoms) if rng.random() < 0.8 else rng.choice([0, 1, 5, 6, 7, 32, 64, 100])
+        n = rng.randint(0, max(d - 1, 0)) if rng.random() < 0.85 else rng.randint(0, 2 * d + 1)
+        w = rng.choice([0, 0, 1, 2, 4, 5, 100, U32MAX])
+        base = w + (n / d if d else 0.0)
+        k = rng.random()
+        if k < 0.25:
+            err = 0.0
+        elif k < 0.8:
+            err = base * rng.choice([0.0009, 0.009, 0.049, 0.099, 0.4]) * rng.uniform(-1, 1)
+        elif k < 0.9:
+            err = rng.uniform(-1, 1)
+        else:
+            err = rng.choice([-base, -base - 1.0, 1e-11, -1e-11, 0.5, 1e9])
+        if d:
+            # Number::value adds in floating point; where that cancels (err close to -(whole + num/den)) its
+            # result is rounding noise the exact model cannot follow: such starts are not generated
+            fl = w + err + n / d
+            ex = Fraction(w) + Fraction(err) + Fraction(n, d)
+            if abs(Fraction(fl) - ex) > abs(ex) / 2 ** 45:
+                return start()
+        return "F%d,%d,%d,%s" % (w, n, d, f64hex(err))
+
+    def add(mode, st, ps):
+        out.append(("S", mode, st, tuple(ps)))
+
+    # the recorded witnesses, every mode, the same limits twice and then others
+    dflt = (f32hex(0.05), 4, U32MAX)
+    for v in SEQ_WITNESSES:
+        for mode in "nqf":
+            add(mode, "b" + f64hex(v), (dflt, dflt, (f32hex(0.01), 16, U32MAX), dflt))
+        add("r", "b%s&b%s" % (f64hex(v), f64hex(v + 1.0)), (dflt, dflt, dflt))
+    add("n", "F0,1,4," + f64hex(0.01), (dflt, dflt))
+    add("n", "F2,0,1," + f64hex(0.08), (dflt, (f32hex(0.0), 4, U32MAX), dflt))
+    add("n", "F1,1,0," + f64hex(0.0), (dflt, dflt))       # den = 0: value() is not finite
+    add("n", "b" + f64hex(0.26), ((f32hex(1.5), 4, U32MAX),))  # assertion
+    add("n", "b" + f64hex(0.26), (dflt, (f32hex(0.05), 65, U32MAX)))
+
+    n_seq = 30000 if quick else 600000
+    for _ in range(n_seq):
+        r = rng.random()
+        mode = "n" if r < 0.55 else "q" if r < 0.8 else "r" if r < 0.9 else "f"
+        st = start() + ("&" + start() if mode == "r" else "")
+        add(mode, st, plan(mode))
+    return out
+
+
+def seq_line(case, upto=None):
+    _, mode, st, ps = case
+    return "S %s %s %s" % (mode, st, " ".join("%s %d %d" % t for t in ps))
+
+
+def parse_steps(field):
+    """'1 frac 0 1 4 m e & reg m e | 0 ...' -> [(flag, [tokens of number, ...]), ...]"""
+    steps = []
+    for part in field.split(" | "):
+        t = part.split(" ")
+        if t[0] in ("P", "X"):
+            steps.append((t[0], []))
+        else:
+            steps.append((t[0], [x.split(" ") for x in " ".join(t[1:]).split(" & ")]))
+    return steps
+
+
+def num_discrete(t):
+    return tuple(t[:4]) if t[0] == "frac" else (t[0],)
+
+
+def num_close(ti, tm, scale, stats):
+    """numeric agreement of two numbers with the same discrete part (impl m e / model num/den)."""
+    if ti[0] == "frac":
+        if len(ti) < 6:
+            return False                      # err is nan / inf: nothing the model could have said
+        ei, em = impl_num(ti[4], ti[5]), model_num(tm[4])
+        if not (math.isfinite(scale) and scale > 0):
+            return ei == em
+        dev = abs(ei - em) / scale
+        stats["worst_err_dev"] = max(stats["worst_err_dev"], dev)
+        return dev <= TOL
+    if ti[1] == "nan" or tm[1] == "nan" or ti[1] in ("inf", "-inf"):
+        return (ti[1] in ("nan", "inf", "-inf")) == (tm[1] == "nan")
+    a, b = impl_num(ti[1], ti[2]), model_num(tm[1])
+    return a == b or abs(a - b) <= TOL * abs(b)
+
+
+def step_agrees(si, sm, scales, stats):
+    """None | 'discrete' | 'numeric'"""
+    if si[0] != sm[0] or len(si[1]) != len(sm[1]):
+        return "discrete"
+    for ti, tm in zip(si[1], sm[1]):
+        if num_discrete(ti) != num_discrete(tm):
+            return "discrete"
+    for k, (ti, tm) in enumerate(zip(si[1], sm[1])):
+        if not num_close(ti, tm, scales[k], stats):
+            return "numeric"
+    return None
+
+
+def compare_seq(case, fi, fm, stats):
+    """None, ('discrete', k) or 'numeric: ..' - the first call at which the two sides part."""
+    si, sm = parse_steps(fi["S"]), parse_steps(fm["S"])
+    scales = [abs(seq_start_value(t)) for t in case[2].split("&")]
+    for k in range(max(len(si), len(sm))):
+        if k >= len(si) or k >= len(sm):
+            return ("discrete", k)
+        why = step_agrees(si[k], sm[k], scales, stats)
+        if why == "discrete":
+            return ("discrete", k)
+        if why:
+            return "numeric: call %d impl=%r model=%r" % (k + 1, si[k], sm[k])
+    return None
+
+
+def state_token(nums):
+    """the implementation's numbers as a state for the model; None when one of them has no rational value
+    (a stored fraction whose err is not finite)."""
+    out = []
+    for t in nums:
+        if t[0] == "frac" and len(t) < 6:
+            return None
+        if t[0] == "frac":
+            out.append("F%s,%s,%s,%s:%s" % (t[1], t[2], t[3], t[4], t[5]))
+        elif t[1] in ("nan", "inf", "-inf"):
+            out.append("b" + f64hex(float(t[1])))
+        else:
+            out.append("R%s:%s" % (t[1], t[2]))
+    return "&".join(out)
+
+
+def exact_value(tok):
+    """exact rational value of a state token (b<bits>, F..,<bits> or R<m>:<e>, F..,<m>:<e>); None if not finite."""
+    def num(x):
+        if ":" in x:
+            m, e = x.split(":")
+            return Fraction(int(m)) * Fraction(2) ** int(e)
+        v = hex64_to_float(x)
+        return Fraction(v) if math.isfinite(v) else None
+    if tok[0] in "bR":
+        return num(tok[1:])
+    w, n, d, e = tok[1:].split(",")
+    if int(d) == 0 or num(e) is None:
+        return None
+    return Fraction(int(w)) + Fraction(int(n), int(d)) + num(e)
+
+
+def float_value(tok):
+    """Number::value of a state token in IEEE doubles, in the order the source adds: whole + err + num / den."""
+    def num(x):
+        if ":" in x:
+            m, e = x.split(":")
+            return impl_num(m, e)
+        return hex64_to_float(x)
+    if tok[0] in "bR":
+        return num(tok[1:])
+    w, n, d, e = tok[1:].split(",")
+    if int(d) == 0:
+        return math.nan
+    return (float(int(w)) + num(e)) + float(int(n)) / float(int(d))
+
+
+def probes_for(before_tok, answer):
+    """perturbations of the value one number hands to new_approx: none, +-2^-40, the double value() really
+    returns, the fraction the implementation names - the last two only where they lie within 2^-40 (relative)
+    of the exact value."""
+    out = ["0", "+", "-"]
+    ex = exact_value(before_tok)
+    if ex is None or ex <= 0:
+        return out
+    cands = []
+    fv = float_value(before_tok)
+    if math.isfinite(fv):
+        cands.append(Fraction(fv))
+    if answer is not None and answer[0] == "frac" and int(answer[3]) > 0:
+        cands.append(Fraction(int(answer[1])) + Fraction(int(answer[2]), int(answer[3])))
+    for t in cands:
+        if t != ex and abs(t - ex) <= ex / 2 ** 40:
+            out.append("=%d/%d" % (t.numerator, t.denominator))
+    return list(dict.fromkeys(out))
+
+
+def seq_probes(case, si, k):
+    """model lines: one call from the implementation's state before call j (j >= k), plain and perturbed."""
+    import itertools
+    _, mode, st, ps = case
+    lines, keys = [], []
+    for j in range(k, len(si)):
+        before = st if j == 0 else state_token(si[j - 1][1])
+        if before is None:
+            break
+        toks = before.split("&")
+        answers = si[j][1] if len(si[j][1]) == len(toks) else [None] * len(toks)
+        for combo in itertools.product(*[probes_for(t, a) for t, a in zip(toks, answers)]):
+            lines.append("T %s %s %s %d %d %s" % ((mode, before) + ps[j] + (",".join(combo),)))
+            keys.append((j, combo))
+    return lines, keys
+
+
+# --------------------------------------------------------------------------
 # comparison
 
 def parse_line(line):
@@ -235,10 +506,27 @@ def compare(case, fi, fm, stats):
 
 
 def case_line(case, pert=None):
+    if is_seq(case):
+        return seq_line(case)
     return "%s %s %d %d" % case + ((" " + pert) if pert else "")
 
 
+def case_of_line(l):
+    t = l.split(" ")
+    if t[0] == "S":
+        r = t[3:]
+        return ("S", t[1], t[2], tuple((r[i], int(r[i + 1]), int(r[i + 2])) for i in range(0, len(r) - 2, 3)))
+    return (t[0], t[1], int(t[2]), int(t[3]))
+
+
 def describe(case):
+    if is_seq(case):
+        _, mode, st, ps = case
+        return {"sequence": {"n": "Number::try_approx", "q": "ScaledQuantity::try_fraction (number)",
+                             "r": "ScaledQuantity::try_fraction (range)", "f": "ScaledQuantity::fit"}[mode],
+                "start": st, "start_value": [repr(seq_start_value(t)) for t in st.split("&")],
+                "calls": [{"accuracy": repr(hex32_to_float(a)), "max_den": d, "max_whole": w} for a, d, w in ps],
+                "case": seq_line(case)}
     return {"value": repr(hex64_to_float(case[0])), "value_bits": case[0], "accuracy": repr(hex32_to_float(case[1])),
             "accuracy_bits": case[1], "max_den": case[2], "max_whole": case[3], "case": case_line(case)}
 
@@ -270,15 +558,27 @@ def run(rep, tier, seed):
     phase("build")
     audit = common.audit_property_file("C12")
     phase("proof_audit")
-    env_i = {"C12_DENOMS": ",".join(str(d) for d in consts["denoms"])}
+    env_i = {"C12_DENOMS": ",".join(str(d) for d in consts["denoms"]),
+             "C12_CLAMP_DEN": "%d,%d" % (consts["clamp_den_lo"], consts["clamp_den_hi"])}
 
     # which new_approx is in the tree: the code as found rejects the exact value u32::MAX
     probe = parse_line(common.run_lines(impl_exe, [case_line(witness_case())], env=env_i, tag="probe")[0])
     found_code = probe["R"] == "none"
     env_m = {"FRAC_CFG": "found" if found_code else "fixed"}
 
-    corpus = [tuple(l.split(" ")[:2]) + (int(l.split(" ")[2]), int(l.split(" ")[3])) for l in common.load_corpus("C12")]
-    cases = list(dict.fromkeys(corpus + [witness_case()] + gen_cases(consts, tier, rng)))
+    corpus = [case_of_line(l) for l in common.load_corpus("C12")]
+    # the sequences draw from their own stream: the single approximations are those of earlier runs
+    seqs = gen_seq_cases(consts, tier, random.Random(seed * 2654435761 % 2 ** 32 + 12))
+    singles_gen = gen_cases(consts, tier, rng)
+    # a sequence costs the model several calls: spread them evenly so that the shards of run_lines are balanced
+    mixed, step, j = [], max(1, len(singles_gen) // max(1, len(seqs))), 0
+    for i, x in enumerate(singles_gen):
+        mixed.append(x)
+        if (i + 1) % step == 0 and j < len(seqs):
+            mixed.append(seqs[j])
+            j += 1
+    mixed += seqs[j:]
+    cases = list(dict.fromkeys(corpus + [witness_case()] + mixed))
     lines = [case_line(c) for c in cases]
     phase("generate")
     impl = common.run_lines(impl_exe, lines, env=env_i, tag="impl")
@@ -291,8 +591,45 @@ def run(rep, tier, seed):
     nontrivial = set()
     monitor_hits, known_hits, suspects, disagreements = [], [], [], []
     parsed = []
+    seq_stats = {"sequences": 0, "calls": 0, "by_mode": {}, "calls_on_stored_fraction_with_error": 0,
+                 "of_which_approximated_again": 0, "declined_calls": 0, "ended_by_panic": 0, "ended_by_unit_change": 0,
+                 "worst_value_drift_ulps": 0.0, "step_kinds": {}}
+    seq_suspects = []
     for c, li, lm in zip(cases, impl, model):
         fi, fm = parse_line(li), parse_line(lm)
+        if is_seq(c):
+            seq_stats["sequences"] += 1
+            seq_stats["by_mode"][c[1]] = seq_stats["by_mode"].get(c[1], 0) + 1
+            si = parse_steps(fi["S"])
+            before = None
+            for flag, nums in si:
+                seq_stats["calls"] += 1
+                if flag == "P":
+                    seq_stats["ended_by_panic"] += 1
+                elif flag == "X":
+                    seq_stats["ended_by_unit_change"] += 1
+                else:
+                    if flag == "0":
+                        seq_stats["declined_calls"] += 1
+                    for t in nums:
+                        seq_stats["step_kinds"][t[0]] = seq_stats["step_kinds"].get(t[0], 0) + 1
+                    stored = [t for t in (before or []) if t[0] == "frac" and t[4] != "0"]
+                    if stored:
+                        seq_stats["calls_on_stored_fraction_with_error"] += 1
+                        if flag == "1":
+                            seq_stats["of_which_approximated_again"] += 1
+                    if any(t[0] == "frac" for t in nums):
+                        nontrivial.add((c[2], tuple(num_discrete(t) for t in nums)))
+                before = nums
+            seq_stats["worst_value_drift_ulps"] = max(seq_stats["worst_value_drift_ulps"], float(fi["DEV"]))
+            if fi["V"] != "-":
+                monitor_hits.append((case_line(c), "monitor: " + fi["V"], dict(describe(c), violated=fi["V"], impl=li)))
+            why = compare_seq(c, fi, fm, stats)
+            if isinstance(why, tuple):
+                seq_suspects.append((c, fi, fm, li, lm, why[1]))
+            elif why is not None:
+                disagreements.append((case_line(c), dict(describe(c), impl=li, model=lm, why=why)))
+            continue
         di = discrete(fi["R"])
         kinds[di[0]] = kinds.get(di[0], 0) + 1
         if di[0] == "frac":
@@ -337,6 +674,50 @@ def run(rep, tier, seed):
                 disagreements.append((case_line(c), dict(describe(c), impl=li, model=lm, why="discrete answers differ, "
                                                          "also inside v(1+-2^-40): %r" % (alts[i],))))
 
+    # sequences that part at call k: from there on the model makes ONE call from the state the implementation
+    # was in; a call is accepted when the plain model answer agrees, or - a counted rounding tie - when the
+    # model answers as the implementation did with the value it approximates moved by 2^-40 (relative), or
+    # taken at the fraction the implementation names when that lies as close, and the monitor accepted
+    seq_ties = []
+    if seq_suspects:
+        plines, pkeys, owner = [], [], []
+        for i, (c, fi, fm, li, lm, k) in enumerate(seq_suspects):
+            ls, ks = seq_probes(c, parse_steps(fi["S"]), k)
+            plines += ls
+            pkeys += ks
+            owner += [i] * len(ls)
+        pout = common.run_lines(runner, plines, env=env_m, tag="seqtie") if plines else []
+        answers = {}
+        for i, (j, p), out in zip(owner, pkeys, pout):
+            answers.setdefault((i, j), []).append((p, parse_steps(parse_line(out)["S"])[0]))
+        for i, (c, fi, fm, li, lm, k) in enumerate(seq_suspects):
+            si = parse_steps(fi["S"])
+            scales = [abs(seq_start_value(t)) for t in c[2].split("&")]
+            bad, tied = None, 0
+            for j in range(k, len(si)):
+                ok_plain, ok_tie = False, False
+                for p, sm in answers.get((i, j), []):
+                    if set(p) == {"0"}:
+                        ok_plain = step_agrees(si[j], sm, scales, stats) is None
+                    elif step_agrees(si[j], sm, scales, {"worst_err_dev": 0.0}) in (None, "numeric"):
+                        ok_tie = True
+                if ok_plain:
+                    continue
+                if ok_tie:
+                    tied += 1
+                    continue
+                bad = j
+                break
+            if bad is None and fi["V"] == "-":
+                # tied == 0: the two states before call k differed below the tolerance and call k fell on
+                # different sides - the model follows as soon as it is given the implementation's state
+                seq_ties.append((c, li, lm, tied))
+            else:
+                disagreements.append((case_line(c), dict(describe(c), impl=li, model=lm,
+                                                         why="sequence parts at call %d; the model, started from the "
+                                                             "implementation's state, does not follow at call %d (also not "
+                                                             "inside v(1+-2^-40))" % (k + 1, (bad if bad is not None else k) + 1))))
+
     # the recorded boundary defect: exact value u32::MAX with max_whole = u32::MAX is declined
     if known_hits:
         entry = [f for f in rep.findings if f.get("class") == KNOWN_CLASS]
@@ -360,14 +741,19 @@ def run(rep, tier, seed):
 
     phase("ties")
     common.decide(rep, "C12", "L-frac", audit, monitor_hits, disagreements, tier,
-                  "correspondence Model/Fraction.v <-> src/quantity.rs (new_approx, lookup table, value, Display)")
+                  "correspondence Model/Fraction.v <-> src/quantity.rs (new_approx, try_approx, lookup table, value, "
+                  "Display), src/convert (define, try_fraction), single approximations and sequences")
     common.proof_coverage(rep, "C12", audit, tier,
-                          "FractionLookupTable::{new,lookup}, Number::{new_approx,value}, Display for Number "
-                          "(src/quantity.rs 101-116, 208-240, 633-778) over exact rationals; IEEE rounding is not "
+                          "FractionLookupTable::{new,lookup}, Number::{new_approx,try_approx,value}, Display for Number "
+                          "(src/quantity.rs 101-116, 208-240, 633-791), FractionsConfigHelper::define and the part of "
+                          "ScaledQuantity::try_fraction after the unit's configuration is known (src/convert) over exact "
+                          "rationals; IEEE rounding is not "
                           "modelled (compared within 2^-40, discrete differences only as counted rounding ties); "
                           "f64 Display of Regular numbers is an oracle (monitored, not modelled)")
-    isample = [i for i, c in enumerate(cases) if discrete(parse_line(impl[i])["R"])[0] == "frac"][:2] + \
-              [len(cases) // 2, len(cases) - 1]
+    singles = [i for i, c in enumerate(cases) if not is_seq(c)]
+    seq_idx = [i for i, c in enumerate(cases) if is_seq(c)]
+    isample = [i for i in singles if discrete(parse_line(impl[i])["R"])[0] == "frac"][:2] + \
+              [singles[len(singles) // 2]] + seq_idx[:1] + seq_idx[len(seq_idx) // 2:len(seq_idx) // 2 + 1] + seq_idx[-1:]
     rep.coverage.update({
         "evaluations": len(cases), "distinct_nontrivial": len(nontrivial),
         "rule": "cases (value bits, f32 accuracy bits, max_den, max_whole): specials (non-positive, non-finite, "
@@ -378,11 +764,26 @@ def run(rep, tier, seed):
                 "around the acceptance thresholds v = t/(1+-acc); k/2520 grid; seeded random doubles (uniform, "
                 "log-uniform 1e-12..1e12, near-integers, random bit patterns); max_den 1..64, accuracies "
                 "{0,.001,.01,.05,.1,.5,1} + random f32, max_whole in {0,1,4,5,100,u32::MAX} + random. "
-                "distinct_nontrivial = distinct (value, returned whole/num/den) with a Fraction answer"
+                "distinct_nontrivial = distinct (value, returned whole/num/den) with a Fraction answer. "
+                "SEQUENCES (S lines): a number - a plain one (near table fractions and integers so that an error is "
+                "recorded, uniform, log-uniform, non-positive, beyond u32) or a stored fraction (supported and other "
+                "denominators, den 0, num >= den, err 0 / within a few %% / arbitrary / cancelling the value where "
+                "value() is exact to 2^-45) - is "
+                "approximated 2..4 times: the same limits again, other limits, a mixture; through Number::try_approx "
+                "(max_den 1..64), ScaledQuantity::try_fraction on a number and on a range (limits as a units-file layer, "
+                "also outside the clamp of define), ScaledQuantity::fit in a unit without system; plus the recorded "
+                "witnesses 0.26 and 2.08 at 5 %% in every mode"
                 % (int(consts["fix_ratio"]), "all 1..64" if tier != "quick" else str(den_classes(consts))),
         "exhaustive": False,
         "samples": [dict(describe(cases[i]), impl=impl[i], model=model[i]) for i in isample],
         "outcome_kinds": kinds,
+        "single_approximations": len(singles),
+        "sequences": seq_stats,
+        "sequence_value_tolerance": "after call i: |value() - original value()| <= 4*i ulp; each answer within 4 ulp of "
+                                    "the value() it was computed from",
+        "sequence_rounding_ties_counted": len(seq_ties),
+        "sequence_rounding_ties_with_perturbed_call": len([t for t in seq_ties if t[3]]),
+        "sequence_rounding_tie_samples": [dict(describe(c), impl=li, model=lm) for c, li, lm, _ in seq_ties[:2]],
         "rounding_ties_counted": len(ties) + len(ties_exact),
         "rounding_ties_at_interval_end": len(ties),
         "rounding_ties_at_named_fraction": len(ties_exact),
@@ -398,7 +799,10 @@ def run(rep, tier, seed):
     })
     rep.assumptions = [
         "f64 arithmetic of new_approx is modelled by exact rational arithmetic; the implementation's rounding is covered "
-        "only by the correspondence run (tolerance 2^-40 relative to the value) and the monitor (value() within 4 ulp)",
+        "only by the correspondence run (tolerance 2^-40 relative to the value) and the monitor (value() within 4 ulp; "
+        "after the i-th successive approximation within 4*i ulp of the original value)",
+        "finding the unit of a quantity and the layers of its fractions configuration are not part of this model "
+        "(Model/Convert.v, C09/C16); the sequences use one unit whose configuration is a single `fractions.all` layer",
         "the monitor's list of supported denominators is the DENOMS constant read from the source on this run",
     ]
 
@@ -417,6 +821,7 @@ def replay(rp):
         return 1
     e = dict(os.environ)
     e["C12_DENOMS"] = ",".join(str(d) for d in consts["denoms"])
+    e["C12_CLAMP_DEN"] = "%d,%d" % (consts["clamp_den_lo"], consts["clamp_den_hi"])
     p = subprocess.run([impl_exe, "-"], input=case + "\n", text=True, stdout=subprocess.PIPE, env=e)
     print(p.stdout.strip())
     return 0 if p.stdout.strip().endswith("V -") else 1
